@@ -9,20 +9,24 @@ schema clauses of the property are re-derived from the stored datasets with plai
   pixels-upper-triangular          bin1_id <= bin2_id when storage-mode is symmetric-upper
   bin1_offset==run-length-index    offset[i] = #pixels with bin1_id < i, length nbins+1
   chrom_offset==run-length-index   offset[c] = #bins with chrom id < c, length nchroms+1 (ids non-decreasing)
-  nbins/nchroms==stored-tables     attrs agree with the lengths of bins/* and chroms/*
+  nbins==stored-bin-table, nchroms==stored-chrom-table   attrs agree with the lengths of bins/* and chroms/*
   sum==total-of-count              attrs['sum'] = sum of the stored count column
-  bin-type/size==stored-bins       'fixed', b  => every bin is [k*b, min((k+1)*b, chromosome end));
+  bin-type+size==stored-bins       'fixed', b  => every bin is [k*b, min((k+1)*b, chromosome end));
                                    'variable'  => the table is not such a grid (when it has a non-last bin)
   storage-mode-as-requested        attrs['storage-mode'] is the mode the history started with
 
 Producers: create_cooler (all C01 input forms, any row order of a frame), create_cooler(ordered=False) /
 create_from_unordered, merge_coolers, coarsen_cooler, zoomify_cooler, create_scool, the CLI (load coo/bg2, cload
-pairs, merge, coarsen, zoomify, zoomify --legacy) and chained histories of them, several collections per file.
+pairs, cload tabix, merge, coarsen, zoomify, zoomify --legacy) and chained histories of them, several collections per file.
+A producer that raises on a valid input is recorded under `producer-runs` (it leaves no valid collection behind).
+If a collection has MORE stored rows than its recorded nnz, that is reported once by the length clause and the other
+pixel clauses are evaluated on the first nnz rows.
 The index builder is additionally driven across its block boundary at function level (rlencode with every
 block size, index_pixels/index_bins with the 1e6 block replaced by small blocks) and, in the thorough tier, end to
 end with > 1e6 pixels.
 """
 import itertools
+import shutil
 import math
 import os
 import sys
@@ -119,6 +123,12 @@ class Validator:
         lens = {k: len(v) for k, v in px.items()}
         R.check("pixel-columns-length==nnz", all(v == nnz for v in lens.values()), case, lens, nnz, True,
                 f"{producer}/{matrix_kind}")
+        if all(v >= nnz for v in lens.values()) and any(v > nnz for v in lens.values()):
+            # rows beyond the recorded nnz have just been reported by the length clause; the remaining clauses are
+            # evaluated on the recorded table (first nnz rows) so that one cause is listed once, not four times
+            px = {k: v[:nnz] for k, v in px.items()}
+            b1, b2 = px["bin1_id"], px["bin2_id"]
+            nt = nnz > 0
         same_len = len(b1) == len(b2)
         R.check("pixels-strictly-increasing", same_len and lex_increasing(b1, b2), case,
                 _head(b1, b2), "strictly increasing (bin1_id, bin2_id)", nt, kind)
@@ -152,10 +162,9 @@ class Validator:
         if "count" in px:
             cnt = px["count"]
             if cnt.dtype.kind in "iu":
-                tot = int(cnt.astype(np.int64).sum()) if len(cnt) < 10000 else int(cnt.sum(dtype=np.int64))
-                if len(cnt) < 10000:
-                    tot = sum(int(x) for x in cnt)
-                good = int(at["sum"]) == tot and float(at["sum"]) == float(int(at["sum"]))
+                # exact python-int total (vectorised only for the > 1e6 collections, whose totals fit int64)
+                tot = sum(int(x) for x in cnt) if len(cnt) < 100000 else int(cnt.sum(dtype=np.int64))
+                good = float(at["sum"]) == float(int(at["sum"])) and int(at["sum"]) == tot
             else:
                 tot = math.fsum(float(x) for x in cnt)
                 good = math.isclose(float(at["sum"]), tot, rel_tol=1e-9, abs_tol=1e-300)
@@ -172,7 +181,7 @@ class Validator:
             good = lclass != "grid"
         else:
             good = False
-        R.check("bin-type/size==stored-bins", good, case, [btype, str(bsize)], f"stored table is: {lclass}", True, lclass)
+        R.check("bin-type+size==stored-bins", good, case, [btype, str(bsize)], f"stored table is: {lclass}", True, lclass)
         return dict(nnz=nnz, nbins=nb_tab, bin_size=None if isinstance(bsize, str) else int(bsize), lclass=lclass)
 
     @staticmethod
@@ -239,81 +248,100 @@ SM = {True: "symmetric-upper", False: "square"}
 
 
 # ------------------------------------------------------------------ function level: the run-length indexer
-def section_rlencode(W, maxlen):
+def rl_case(W, tup, cs):
     R = W.R
+    a = np.array(tup, dtype=np.int64)
+    runs = [(k, len(list(g))) for k, g in itertools.groupby(tup)]
+    est, pos = [], 0
+    for _, ln in runs:
+        est.append(pos)
+        pos += ln
+    exp = (est, [ln for _, ln in runs], [k for k, _ in runs])
+    case = dict(array=list(tup), chunksize=cs)
+    ok, got = R.guarded("rlencode==runs-for-every-block-size", case, lambda: rlencode(a, cs), "int-array")
+    if ok:
+        g = tuple(x.tolist() for x in got)
+        R.check("rlencode==runs-for-every-block-size", g == exp, case, g, exp, len(tup) > 0, "int-array")
+
+
+def section_rlencode(W, maxlen):
     for n in range(0, maxlen + 1):
         for tup in itertools.product((0, 1, 2), repeat=n):
-            a = np.array(tup, dtype=np.int64)
-            runs = [(k, len(list(g))) for k, g in itertools.groupby(tup)]
-            est, pos = [], 0
-            for _, ln in runs:
-                est.append(pos)
-                pos += ln
-            exp = (est, [ln for _, ln in runs], [k for k, _ in runs])
             for cs in [None, *range(1, n + 2)]:
-                case = dict(array=list(tup), chunksize=cs)
-                ok, got = R.guarded("rlencode==runs-for-every-block-size", case, lambda: rlencode(a, cs), "int-array")
-                if ok:
-                    g = tuple(x.tolist() for x in got)
-                    R.check("rlencode==runs-for-every-block-size", g == exp, case, g, exp, n > 0, "int-array")
+                rl_case(W, tup, cs)
 
 
-def section_index_small_blocks(W, nbins, maxlen):
-    """the real index_pixels / index_bins with the hard-coded 1e6 block replaced by every small block size"""
+def index_case(W, which, tup, nids, blk):
+    """the real index_pixels / index_bins with the hard-coded 1e6 block replaced by the block size blk"""
     R = W.R
     real = _create_mod.rlencode
+    a = np.array(tup, dtype=np.int64)
+    n = len(tup)
+    exp = rl_index(a, nids).tolist()
+    _create_mod.rlencode = lambda array, chunksize=None, _b=blk: real(array, _b)
     try:
-        for n in range(0, maxlen + 1):
-            for tup in itertools.combinations_with_replacement(range(nbins), n):  # all sorted columns
-                a = np.array(tup, dtype=np.int64)
-                exp = rl_index(a, nbins).tolist()
-                for blk in range(1, n + 2):
-                    _create_mod.rlencode = lambda array, chunksize=None, _b=blk: real(array, _b)
-                    case = dict(bin1_id=list(tup), nbins=nbins, block=blk)
-                    ok, got = R.guarded("index_pixels==run-length-index(small blocks)", case,
-                                        lambda: _create_mod.index_pixels({"bin1_id": a}, nbins, n), "sorted-column")
-                    if ok:
-                        R.check("index_pixels==run-length-index(small blocks)", got.tolist() == exp, case, got.tolist(), exp,
-                                n > 0, "sorted-column")
-                    if n > 0:
-                        case = dict(chrom=list(tup), nchroms=nbins, block=blk)
-                        ok, got = R.guarded("index_bins==run-length-index(small blocks)", case,
-                                            lambda: _create_mod.index_bins({"chrom": a}, nbins, n), "sorted-column")
-                        if ok:
-                            R.check("index_bins==run-length-index(small blocks)", got.tolist() == exp, case, got.tolist(), exp,
-                                    True, "sorted-column")
+        if which == "pixels":
+            case = dict(bin1_id=list(tup), nbins=nids, block=blk)
+            ok, got = R.guarded("index_pixels==run-length-index@small-blocks", case,
+                                lambda: _create_mod.index_pixels({"bin1_id": a}, nids, n), "sorted-column")
+            if ok:
+                R.check("index_pixels==run-length-index@small-blocks", got.tolist() == exp, case, got.tolist(), exp,
+                        n > 0, "sorted-column")
+        else:
+            case = dict(chrom=list(tup), nchroms=nids, block=blk)
+            ok, got = R.guarded("index_bins==run-length-index@small-blocks", case,
+                                lambda: _create_mod.index_bins({"chrom": a}, nids, n), "sorted-column")
+            if ok:
+                R.check("index_bins==run-length-index@small-blocks", got.tolist() == exp, case, got.tolist(), exp,
+                        True, "sorted-column")
     finally:
         _create_mod.rlencode = real
 
 
+def section_index_small_blocks(W, nbins, maxlen):
+    for n in range(0, maxlen + 1):
+        for tup in itertools.combinations_with_replacement(range(nbins), n):  # all sorted columns
+            for blk in range(1, n + 2):
+                index_case(W, "pixels", tup, nbins, blk)
+                if n > 0:
+                    index_case(W, "bins", tup, nbins, blk)
+
+
 # ------------------------------------------------------------------ producer: create_cooler
+def create_one(W, section, spec, recs, symm, form, extra_kw=None, valcols=("count",), vdt=None, group="/"):
+    B = W.B
+    bins = bins_of(spec)
+    valcols = list(valcols)
+    vdt = vdt or {"count": "int32"}
+    path = W.newpath()
+    uri = path if group == "/" else f"{path}::{group}"
+    case = dict(history=[dict(op="create_cooler", section=section, bins=spec, records=[list(r) for r in recs],
+                              symmetric_upper=symm, form=list(form), value_columns=valcols, dtypes=vdt,
+                              kwargs=extra_kw, group=group)])
+    mk = "empty" if not recs else "nonempty"
+    kw = dict(extra_kw or {})
+    if "h5opts" in kw and kw["h5opts"] and "chunks" in kw["h5opts"]:
+        kw["h5opts"] = dict(kw["h5opts"], chunks=tuple(kw["h5opts"]["chunks"]))
+    if valcols != ["count"]:
+        kw["columns"] = valcols
+    if valcols != ["count"] or vdt != {"count": "int32"}:
+        kw["dtypes"] = {c: NP[vdt[c]] for c in valcols}
+
+    def go():
+        pixels, extra = build_input(form, recs, bins, symm, valcols, vdt, B)
+        cooler.create_cooler(uri, bins, pixels, symmetric_upper=symm, **kw, **extra)
+    pk = "create" + ("(zero-chunk stream)" if form[0] not in ("frame", "dict") and form[1] == [] else "")
+    if W.produce("producer-runs", case, go, f"{pk}/{form[0]}/{mk}"):
+        W.V.validate(path, group, case, pk, SM[symm], mk)
+
+
 def section_create(W, T):
     B, rng = W.B, W.B.rng
     n = 4
     spec, bins = make_layout([2, 2], "fixed-short-last")
 
-    def one(section, spec, bins, recs, symm, form, producer="create", extra_kw=None, valcols=("count",), vdt=None, group="/"):
-        valcols = list(valcols)
-        vdt = vdt or {"count": "int32"}
-        path = W.newpath()
-        uri = path if group == "/" else f"{path}::{group}"
-        case = dict(history=[dict(op="create_cooler", section=section, bins=spec, records=[list(r) for r in recs],
-                                  symmetric_upper=symm, form=list(form), value_columns=valcols, dtypes=vdt,
-                                  kwargs=extra_kw, group=group)])
-        mk = "empty" if not recs else "nonempty"
-        kw = dict(extra_kw or {})
-        if "h5opts" in kw and kw["h5opts"] and "chunks" in kw["h5opts"]:
-            kw["h5opts"] = dict(kw["h5opts"], chunks=tuple(kw["h5opts"]["chunks"]))
-        if valcols != ["count"]:
-            kw["columns"] = valcols
-            kw["dtypes"] = {c: NP[vdt[c]] for c in valcols}
-
-        def go():
-            pixels, extra = build_input(form, recs, bins, symm, valcols, vdt, B)
-            cooler.create_cooler(uri, bins, pixels, symmetric_upper=symm, **kw, **extra)
-        fk = form[0] + ("(zero chunks)" if form[0] != "frame" and form[1] == [] else "")
-        if W.produce("producer-runs", case, go, f"{producer}:{fk}/{mk}"):
-            W.V.validate(path, group, case, f"{producer}:{fk}", SM[symm], mk)
+    def one(section, spec, bins, recs, symm, form, **kw):
+        create_one(W, section, spec, recs, symm, form, **kw)
 
     # named matrices x forms x chunkings
     for symm in (True, False):
@@ -331,10 +359,10 @@ def section_create(W, T):
             for form in forms:
                 one("named:" + mname, spec, bins, recs, symm, form)
     # all compositions of a 4-record stream
-    recs = [(0, 0, 1), (0, 3, 2), (1, 2, 3), (3, 3, 4)]
+    recs4 = [(0, 0, 1), (0, 3, 2), (1, 2, 3), (3, 3, 4)]
     for comp in compositions(4, 4):
-        one("compositions", spec, bins, recs, True, ["iter-frames", comp])
-        one("compositions", spec, bins, recs, True, ["iter-dicts", [0] + comp + [0]])
+        one("compositions", spec, bins, recs4, True, ["iter-frames", comp])
+        one("compositions", spec, bins, recs4, True, ["iter-dicts", [0] + comp + [0]])
     # every row order of a frame / dict (create_cooler sorts them)
     base = [(0, 0, 1), (0, 3, 2), (0, 1, 5), (2, 2, 3)]
     for t, perm in enumerate(itertools.permutations(base)):
@@ -360,36 +388,39 @@ def section_create(W, T):
         one("columns", spec, bins, recs3, symm, ["frame", None], valcols=["count", "e_float", "e_int"],
             vdt={"count": "int64", "e_float": "float64", "e_int": "int64"})
         one("columns", spec, bins, [(r[0], r[1], r[3]) for r in recs3], symm, ["iter-dicts", [1, 0, 2]], valcols=["count"],
-            vdt={"count": "float64"}, extra_kw={"dtypes": {"count": np.float64}})
+            vdt={"count": "float64"})
         one("columns", spec, bins, [(r[0], r[1], r[3]) for r in recs3], symm, ["frame", None], valcols=["e_float"],
             vdt={"e_float": "float64"})
         for h in H5SETS[1:]:
-            one("h5opts", spec, bins, recs, symm, ["iter-frames", [3, 1]], extra_kw={"h5opts": h})
+            one("h5opts", spec, bins, recs4, symm, ["iter-frames", [3, 1]], extra_kw={"h5opts": h})
 
 
 # ------------------------------------------------------------------ producer: unordered ingestion
+def unordered_one(W, section, spec, chunks, symm, mergebuf, max_merge, ensure_sorted=False):
+    bins = bins_of(spec)
+    path = W.newpath()
+    case = dict(history=[dict(op="create_cooler(ordered=False)", section=section, bins=spec,
+                              chunks=[[list(r) for r in c] for c in chunks], symmetric_upper=symm, mergebuf=mergebuf,
+                              max_merge=max_merge, ensure_sorted=ensure_sorted)])
+    allrec = [r for c in chunks for r in c]
+    mk = "empty" if not allrec else "nonempty"
+    kind = (f"unordered/max_merge{'<' if max_merge < len(chunks) else '>='}nchunks/"
+            f"mergebuf{'<' if mergebuf < len(allrec) else '>='}nrecords/{mk}")
+
+    def go():
+        cooler.create_cooler(path, bins, iter([frame_of(c) for c in chunks]), ordered=False, symmetric_upper=symm,
+                             mergebuf=mergebuf, max_merge=max_merge, ensure_sorted=ensure_sorted)
+    if W.produce("producer-runs", case, go, kind):
+        W.V.validate(path, "/", case, "unordered", SM[symm], mk)
+
+
 def section_unordered(W, T):
     B, rng = W.B, W.B.rng
     spec, bins = make_layout([3, 2], "fixed-short-last")
     n = len(bins)
 
-    def one(section, chunks, symm, mergebuf, max_merge, ensure_sorted=False, spec=spec, bins=bins):
-        path = W.newpath()
-        case = dict(history=[dict(op="create_cooler(ordered=False)", section=section, bins=spec,
-                                  chunks=[[list(r) for r in c] for c in chunks], symmetric_upper=symm, mergebuf=mergebuf,
-                                  max_merge=max_merge, ensure_sorted=ensure_sorted)])
-        allrec = [r for c in chunks for r in c]
-        mk = "empty" if not allrec else "nonempty"
-        kind = (f"unordered:{len(chunks)}-chunks/max_merge{'<' if max_merge < len(chunks) else '>='}nchunks/"
-                f"mergebuf{'<' if mergebuf < len(allrec) else '>='}nrecords/{mk}")
-
-        def go():
-            cooler.create_cooler(path, bins, iter([frame_of(c) for c in chunks]), ordered=False, symmetric_upper=symm,
-                                 mergebuf=mergebuf, max_merge=max_merge, ensure_sorted=ensure_sorted)
-        if W.produce("producer-runs", case, go, kind):
-            W.V.validate(path, "/", case, "unordered", SM[symm], mk)
-            left = [f for f in os.listdir(os.path.dirname(path)) if f.endswith(".multi.cool")]
-            W.R.check("no-temporary-file-left", not left, case, left, [], True, "unordered")
+    def one(section, chunks, symm, mergebuf, max_merge, ensure_sorted=False):
+        unordered_one(W, section, spec, chunks, symm, mergebuf, max_merge, ensure_sorted)
 
     for symm in (True, False):
         recs = rand_records(rng, n, symm, 0.5)
@@ -408,6 +439,7 @@ def section_unordered(W, T):
                     one("chunk-orders", ch, symm, mb, 200)
                 if len(ch) >= 2 and (symm or T):
                     one("chunk-orders", ch, symm, 1000000, 2)
+                    one("chunk-orders", ch, symm, 1000000, 1)
         # the same pixel in several chunks (to be summed), an empty chunk, only empty chunks, unsorted chunk + ensure_sorted
         one("repeated-pixels", [recs[:4], recs[2:], recs[1:3]], symm, 1000000, 200)
         one("repeated-pixels", [recs, recs], symm, 4, 200)
@@ -426,8 +458,9 @@ def section_unordered(W, T):
 
 # ------------------------------------------------------------------ histories
 class Node:
-    def __init__(self, path, group, mode, mk, hist, binsize):
+    def __init__(self, path, group, mode, mk, hist, binsize, nnz=0):
         self.path, self.group, self.mode, self.mk, self.hist, self.binsize = path, group, mode, mk, hist, binsize
+        self.nnz = nnz
 
     @property
     def uri(self):
@@ -439,7 +472,9 @@ def apply_op(W, node, op):
     name = op[0]
     hist = node.hist + [dict(op=name, args=list(op[1:]))]
     case = dict(history=hist)
-    kind = f"{name}/{node.mk}"
+    kind = {"merge2": "merge", "merge3": "merge", "coarsen-append": "coarsen"}.get(name, name) + (
+        f"/mergebuf{'<' if op[1] < node.nnz * (2 if name == 'merge2' else 3) else '>='}nrecords" if name.startswith("merge") else ""
+    ) + f"/{node.mk}"
     outs = []
     if name in ("merge2", "merge3"):
         out = W.newpath()
@@ -470,10 +505,11 @@ def apply_op(W, node, op):
         outs = [(out, f"/resolutions/{r}") for r in sorted({b, *res})]
         outs = outs[1:2] + outs[:1] + outs[2:]  # continue from the first derived level
     nxt = None
+    family = {"merge2": "merge", "merge3": "merge", "coarsen-append": "coarsen"}.get(name, name)
     for t, (p, g) in enumerate(outs):
-        s = W.V.validate(p, g, dict(case, validated=g), name, node.mode, node.mk)
+        s = W.V.validate(p, g, dict(case, validated=g), family, node.mode, node.mk)
         if t == 0 and s is not None:
-            nxt = Node(p, g, node.mode, node.mk, hist, s["bin_size"])
+            nxt = Node(p, g, node.mode, node.mk, hist, s["bin_size"], s["nnz"])
     return nxt
 
 
@@ -498,16 +534,8 @@ def section_histories(W, T):
             ("single-chrom", make_layout([9], "fixed-exact"), True, 0.5, 3)]
     for bname, (spec, bins), symm, dens, depth in bases:
         recs = [] if dens is None else rand_records(rng, len(bins), symm, dens)
-        path = W.newpath()
-        h0 = [dict(op="create_cooler", base=bname, bins=spec, records=[list(r) for r in recs], symmetric_upper=symm)]
-        mk = "empty" if not recs else "nonempty"
-        if not W.produce("producer-runs", dict(history=h0),
-                         lambda: cooler.create_cooler(path, bins, frame_of(recs), symmetric_upper=symm), f"create/{mk}"):
-            continue
-        s = W.V.validate(path, "/", dict(history=h0), "create:frame", SM[symm], mk)
-        if s is None:
-            continue
-        frontier = [Node(path, "/", SM[symm], mk, h0, s["bin_size"])]
+        root = history_base(W, bname, spec, recs, symm)
+        frontier = [root] if root is not None else []
         for _ in range(depth):
             nxt = []
             for node in frontier:
@@ -516,6 +544,44 @@ def section_histories(W, T):
                     if r is not None:
                         nxt.append(r)
             frontier = nxt
+
+
+def history_base(W, bname, spec, recs, symm):
+    bins = bins_of(spec)
+    path = W.newpath()
+    h0 = [dict(op="create_cooler", base=bname, bins=spec, records=[list(r) for r in recs], symmetric_upper=symm)]
+    mk = "empty" if not recs else "nonempty"
+    if not W.produce("producer-runs", dict(history=h0),
+                     lambda: cooler.create_cooler(path, bins, frame_of(recs), symmetric_upper=symm), f"create/{mk}"):
+        return None
+    s = W.V.validate(path, "/", dict(history=h0), "create", SM[symm], mk)
+    if s is None:
+        return None
+    return Node(path, "/", SM[symm], mk, h0, s["bin_size"], s["nnz"])
+
+
+def section_random_histories(W, count):
+    """thorough only: seeded random bases and random operation sequences beyond the enumerated scope"""
+    rng = W.B.rng
+    for t in range(count):
+        nb = rng.randint(4, 12)
+        parts = rng.choice(list(compositions(nb, 3)))
+        kind = rng.choice(["fixed-short-last", "fixed-exact", "variable"])
+        spec, bins = make_layout(parts, kind)
+        symm = rng.random() < 0.6
+        recs = rand_records(rng, nb, symm, rng.choice([0.05, 0.2, 0.5, 0.9]), vmax=rng.choice([1, 4, 1000]))
+        node = history_base(W, f"random-{kind}", spec, recs, symm)
+        for _ in range(rng.randint(2, 4)):
+            if node is None:
+                break
+            name = rng.choice(["merge2", "merge3", "coarsen", "coarsen-append", "zoomify"])
+            if name.startswith("merge"):
+                op = (name, rng.choice([2, 3, 5, 8, 50, 1000000]))
+            elif name.startswith("coarsen"):
+                op = (name, rng.choice([2, 2, 3, 4, 5]), rng.choice([1, 2, 3, 7, 1000000]))
+            else:
+                op = (name, tuple(sorted(rng.sample([2, 3, 4, 6, 8], rng.randint(1, 3)))), rng.choice([1, 3, 10, 1000000]))
+            node = apply_op(W, node, op)
 
 
 # ------------------------------------------------------------------ direct sweeps of merge / coarsen buffer sizes
@@ -536,7 +602,8 @@ def section_sweeps(W, T):
             for mb in ([1, 2, 3, 5, total, 10 ** 6] if (symm or T) else [2, 10 ** 6]):
                 out = W.newpath()
                 case = dict(history=h0 + [dict(op="merge_coolers", inputs=label, mergebuf=mb)])
-                kind = f"merge/mergebuf{'<' if mb < total else '>='}nrecords/{'with-empty-input' if 'empty' in label else 'nonempty'}"
+                tot = sum({pa: len(ra), pb: len(rb), pe: 0}[p] for p in ins)
+                kind = f"merge/mergebuf{'<' if mb < tot else '>='}nrecords/{'with-empty-input' if 'empty' in label else 'nonempty'}"
                 if W.produce("producer-runs", case, lambda: cooler.merge_coolers(out, list(ins), mergebuf=mb), kind):
                     W.V.validate(out, "/", case, "merge", SM[symm], "nonempty")
         for k in (2, 3, 4, 7, 8):
@@ -624,7 +691,9 @@ def section_cli(W, T):
             flag = [] if symm else ["-N"]
             bins_args = [("bed", bed)] + ([("chromsizes:binsize", f"{csz}:10")] if lname == "fixed" else [])
             for bform, barg in bins_args:
-                for cs in (None, 1, 3):
+                # chunk sizes (lines per partial cooler): everything at once, halves, thirds; single lines in thorough
+                css = (None, -(-len(lines) // 2), -(-len(lines) // 3)) if bform == "bed" else (-(-len(lines) // 2),)
+                for cs in (css + ((1,) if T else ())):
                     # ---- load coo
                     txt = W.newpath("coo")
                     with open(txt, "w") as f:
@@ -633,7 +702,7 @@ def section_cli(W, T):
                     args = ["load", "-f", "coo", *flag, barg, txt, out] + ([] if cs is None else ["--chunksize", str(cs)])
                     case = dict(history=[dict(op="cli", args=["load", "-f", "coo", *flag, bform, "<coo>", "<out>", "chunksize", cs],
                                               bins=spec, lines=lines, symmetric_upper=symm)])
-                    if invoke(args, case, f"load-coo/chunksize{'<' if cs and cs < len(lines) else '>='}nlines"):
+                    if invoke(args, case, f"cli-load-coo/chunksize{'<' if cs and cs < len(lines) else '>='}nlines/nonempty"):
                         W.V.validate(out, "/", case, "cli-load-coo", SM[symm], "nonempty")
                     # ---- load bg2
                     txt = W.newpath("bg2")
@@ -645,7 +714,7 @@ def section_cli(W, T):
                     args = ["load", "-f", "bg2", *flag, barg, txt, out] + ([] if cs is None else ["--chunksize", str(cs)])
                     case = dict(history=[dict(op="cli", args=["load", "-f", "bg2", *flag, bform, "<bg2>", "<out>", "chunksize", cs],
                                               bins=spec, lines=lines, symmetric_upper=symm)])
-                    if invoke(args, case, f"load-bg2/chunksize{'<' if cs and cs < len(lines) else '>='}nlines"):
+                    if invoke(args, case, f"cli-load-bg2/chunksize{'<' if cs and cs < len(lines) else '>='}nlines/nonempty"):
                         W.V.validate(out, "/", case, "cli-load-bg2", SM[symm], "nonempty")
                     # ---- cload pairs: v read pairs per pixel, 1-based positions inside the two bins
                     txt = W.newpath("pairs")
@@ -659,30 +728,63 @@ def section_cli(W, T):
                     with open(txt, "w") as f:
                         f.write("".join("\t".join(map(str, p)) + "\n" for p in plines))
                     out = W.newpath()
+                    pcs = None if cs is None else max(2, len(plines) * cs // len(lines))
                     args = ["cload", "pairs", "-c1", "1", "-p1", "2", "-c2", "3", "-p2", "4", *flag, barg, txt, out] + (
-                        [] if cs is None else ["--chunksize", str(cs + 1)])
+                        [] if cs is None else ["--chunksize", str(pcs)])
                     case = dict(history=[dict(op="cli", args=["cload", "pairs", *flag, bform, "<pairs>", "<out>", "chunksize",
-                                                              None if cs is None else cs + 1],
+                                                              pcs],
                                               bins=spec, pairs=plines, symmetric_upper=symm)])
-                    if invoke(args, case, f"cload-pairs/chunksize{'<' if cs and cs + 1 < len(plines) else '>='}nlines"):
+                    if invoke(args, case, f"cli-cload-pairs/chunksize{'<' if cs and pcs < len(plines) else '>='}nlines/nonempty"):
                         W.V.validate(out, "/", case, "cli-cload-pairs", SM[symm], "nonempty")
+            # ---- cload tabix: indexed pairs file (upper-triangle records sorted by chrom1, pos1 as `cooler csort` leaves them)
+            if symm:
+                cid = {name: t for t, (name, _) in enumerate(spec)}
+                trows = []
+                for i, j, v in recs:
+                    a, b = bins.iloc[i], bins.iloc[j]
+                    for t in range(v):
+                        p1 = int(a.start) + 1 + t % int(a.end - a.start)
+                        p2 = int(b.end) - t % int(b.end - b.start)
+                        r1, r2 = (a.chrom, p1), (b.chrom, p2)
+                        if (cid[r1[0]], r1[1]) > (cid[r2[0]], r2[1]):
+                            r1, r2 = r2, r1
+                        trows.append([r1[0], r1[1], "+", r2[0], r2[1], "-"])
+                trows.sort(key=lambda r: (cid[r[0]], r[1]))
+                for ms in (1, 2):
+                    txt = W.newpath("tbx.pairs")
+                    with open(txt, "w") as f:
+                        f.write("".join("\t".join(map(str, p)) + "\n" for p in trows))
+                    out = W.newpath()
+                    case = dict(history=[dict(op="cli", args=["cload", "tabix", "-p", 1, "-s", ms, "bed", "<pairs.gz>", "<out>"],
+                                              bins=spec, rows=trows, symmetric_upper=True)])
+
+                    def go_tabix():
+                        import pysam
+                        gz = pysam.tabix_index(txt, seq_col=0, start_col=1, end_col=1, zerobased=False, force=True)
+                        res = runner.invoke(cli, ["cload", "tabix", "-p", "1", "-s", str(ms), bed, gz, out])
+                        if res.exit_code != 0:
+                            if res.exception is not None and not isinstance(res.exception, SystemExit):
+                                raise res.exception
+                            raise RuntimeError(f"exit code {res.exit_code}: {res.output[-300:]}")
+                    if W.produce("producer-runs", case, go_tabix, "cli-cload-tabix/nonempty"):
+                        W.V.validate(out, "/", case, "cli-cload-tabix", SM[True], "nonempty")
             # ---- reducers through the CLI on a loaded cooler
             base = W.newpath()
             cooler.create_cooler(base, bins, frame_of(recs), symmetric_upper=symm)
             h0 = [dict(op="create_cooler", bins=spec, records=[list(r) for r in recs], symmetric_upper=symm)]
             out = W.newpath()
             case = dict(history=h0 + [dict(op="cli", args=["merge", "<out>", "<in>", "<in>", "-c", 3])])
-            if invoke(["merge", out, base, base, "-c", "3"], case, "merge"):
+            if invoke(["merge", out, base, base, "-c", "3"], case, f"cli-merge/mergebuf{'<' if 3 < 2 * len(recs) else '>='}nrecords/nonempty"):
                 W.V.validate(out, "/", case, "cli-merge", SM[symm], "nonempty")
             out = W.newpath()
             case = dict(history=h0 + [dict(op="cli", args=["coarsen", "-k", 2, "-c", 3, "<in>", "-o", "<out>"])])
-            if invoke(["coarsen", "-k", "2", "-c", "3", base, "-o", out], case, "coarsen"):
+            if invoke(["coarsen", "-k", "2", "-c", "3", base, "-o", out], case, "cli-coarsen/nonempty"):
                 W.V.validate(out, "/", case, "cli-coarsen", SM[symm], "nonempty")
             b = 10 if lname == "fixed" else 1
             out = W.newpath("mcool")
             rs = f"{2 * b},{6 * b}"
             case = dict(history=h0 + [dict(op="cli", args=["zoomify", "-r", rs, "-c", 4, "<in>", "-o", "<out>"])])
-            if invoke(["zoomify", "-r", rs, "-c", "4", base, "-o", out], case, "zoomify"):
+            if invoke(["zoomify", "-r", rs, "-c", "4", base, "-o", out], case, "cli-zoomify/nonempty"):
                 for r in (b, 2 * b, 6 * b):
                     W.V.validate(out, f"/resolutions/{r}", dict(case, validated=r), "cli-zoomify", SM[symm], "nonempty")
     # empty text input (the empty matrix as a text file)
@@ -694,7 +796,7 @@ def section_cli(W, T):
     open(txt, "w").close()
     out = W.newpath()
     case = dict(history=[dict(op="cli", args=["load", "-f", "coo", "bed", "<empty file>", "<out>"], bins=spec, lines=[])])
-    if invoke(["load", "-f", "coo", bed, txt, out], case, "load-coo/empty-file"):
+    if invoke(["load", "-f", "coo", bed, txt, out], case, "cli-load-coo/empty-file"):
         W.V.validate(out, "/", case, "cli-load-coo", SM[True], "empty")
     # legacy quad-tree zoomify needs > 256 bins to produce a level
     spec = [["chr1", [10 * k for k in range(301)]], ["chr2", [10 * k for k in range(41)] + [405]]]
@@ -706,7 +808,7 @@ def section_cli(W, T):
     case = dict(history=[dict(op="create_cooler", bins="chr1: 300 bins of 10, chr2: 40 bins of 10 + [400,405)",
                               records=[list(r) for r in recs], symmetric_upper=True),
                          dict(op="cli", args=["zoomify", "--legacy", "-c", 20, "<in>", "-o", "<out>"])])
-    if invoke(["zoomify", "--legacy", "-c", "20", base, "-o", out], case, "zoomify-legacy"):
+    if invoke(["zoomify", "--legacy", "-c", "20", base, "-o", out], case, "cli-zoomify-legacy/nonempty"):
         with h5py.File(out, "r") as f:
             levels = sorted(f.keys())
         W.R.check("legacy-zoomify-writes-levels", len(levels) >= 2, case, levels, ">= 2 levels")
@@ -757,10 +859,62 @@ def section_million(W):
                     W.V.validate(out, "/", c2, "coarsen:>1e6-pixels-input", SM[symm], "nonempty")
 
 
+def replay(B, W):
+    """re-run exactly one recorded case (./check C02 --replay <file>) and print what every contract says"""
+    import json
+    rec = json.load(open(B.replay_file))
+    c = rec["case"]
+    print("replaying", rec["contract"], "signature:", rec.get("signature"))
+    print("case:", json.dumps(c)[:1500])
+    done = True
+    if "array" in c:
+        rl_case(W, tuple(c["array"]), c["chunksize"])
+    elif "bin1_id" in c:
+        index_case(W, "pixels", tuple(c["bin1_id"]), c["nbins"], c["block"])
+    elif "chrom" in c and "nchroms" in c:
+        index_case(W, "bins", tuple(c["chrom"]), c["nchroms"], c["block"])
+    elif "history" in c:
+        h = c["history"]
+        h0 = h[0]
+        if h0["op"] == "create_cooler" and "form" in h0:
+            create_one(W, h0["section"], h0["bins"], [tuple(r) for r in h0["records"]], h0["symmetric_upper"], h0["form"],
+                       extra_kw=h0["kwargs"], valcols=h0["value_columns"], vdt=h0["dtypes"], group=h0["group"])
+        elif h0["op"] == "create_cooler(ordered=False)":
+            unordered_one(W, h0["section"], h0["bins"], [[tuple(r) for r in ch] for ch in h0["chunks"]], h0["symmetric_upper"],
+                          h0["mergebuf"], h0["max_merge"], h0["ensure_sorted"])
+        elif h0["op"] == "create_cooler" and "base" in h0 and all("args" in st for st in h[1:]):
+            node = history_base(W, h0["base"], h0["bins"], [tuple(r) for r in h0["records"]], h0["symmetric_upper"])
+            for st in h[1:]:
+                if node is None:
+                    break
+                node = apply_op(W, node, (st["op"], *[tuple(a) if isinstance(a, list) else a for a in st["args"]]))
+        else:
+            done = False
+    else:
+        done = False
+    if not done:
+        print("recorded observed:", rec["observed"], "\nrecorded expected:", rec["expected"])
+        print(f"(composite case: re-run `bounded/C02.py --tier {B.tier} --seed {B.seed}`; the case lists every input)")
+    for v in B.violations:
+        r = json.load(open(v["replay"]))
+        print("FAIL", r["contract"], "\n  observed:", r["observed"], "\n  expected:", r["expected"], "\n  signature:", r["signature"])
+    print("contracts evaluated:", B.contracts, "violations:", len(B.violations))
+    return B.finish()
+
+
 def main():
     B = Bounded("C02", "bounded/C02.py")
+    try:
+        return body(B)
+    finally:
+        shutil.rmtree(B.tmp, ignore_errors=True)  # also when the runner itself crashes
+
+
+def body(B):
     T = B.thorough
     W = World(B)
+    if B.replay_file:
+        return replay(B, W)
     rl_len = 9 if T else 7
     ix_len = 8 if T else 6
     B.bound = (
@@ -769,13 +923,13 @@ def main():
         "end to end (raw h5py re-derivation of every schema clause on every collection written): create_cooler [5-7 named matrices on 4 bins x 2 modes x "
         "{frame, dict, chunk streams of sizes 1,2,3,nnz,nnz+1 with empty chunks, zero-chunk streams, list, ArrayLoader}, ALL compositions of a 4-record stream, "
         f"ALL 24 row orders of a frame, ALL bin layouts <=3 chromosomes <={6 if T else 5} bins x 3 kinds + 2 'last bin longer' tables, dtypes/extra columns/4 h5opts]; "
-        "unordered ingestion [1..4 chunks in ALL chunk orders (k=4: 6 orders in quick) x mergebuf {1,3,1e6} x max_merge {2,200}, repeated pixels, empty chunks, "
+        "unordered ingestion [1..4 chunks in ALL chunk orders (k=4: 6 orders in quick) x mergebuf {1,3,1e6} x max_merge {1,2,200}, repeated pixels, empty chunks, "
         "5..9 chunks with max_merge 2..4]; merge/coarsen sweeps [4 input combinations x mergebuf {1,2,3,5,n,1e6}; factor {2,3,4,7,8} x chunksize {1,2,5,1e6}]; "
         f"ALL histories of length <={3 if T else 2} over {{merge2, merge3(buf 3), coarsen 2, coarsen 3 appended to the source file, zoomify x2,x4}} from "
         f"{12 if T else 9} base coolers (fixed/variable/one-bin/empty/last-bin-longer, both modes); 7 creations into one file (3 groups incl. root, overwrites); "
-        "create_scool (4 cells incl. empty, bins as frame / dict); CLI load coo/bg2 + cload pairs (2 layouts x 2 modes x bins as BED / chromsizes:binsize x "
-        "chunksize {default,1,3}), CLI merge/coarsen/zoomify/zoomify --legacy, empty text file"
-        + ("; thorough: two collections with > 1e6 pixels (a row starting exactly at pixel 1,000,000; boundary inside a row) + merge/coarsen of them" if T else ""))
+        "create_scool (4 cells incl. empty, bins as frame / dict); CLI load coo/bg2 + cload pairs + cload tabix (2 layouts x 2 modes x bins as BED / chromsizes:binsize x "
+        "chunksize {all, half, third of the lines}), CLI merge/coarsen/zoomify/zoomify --legacy, empty text file"
+        + ("; thorough: two collections with > 1e6 pixels (a row starting exactly at pixel 1,000,000; boundary inside a row) + merge/coarsen of them; 250 seeded random histories (4..12 bins, 2..4 operations with random buffer sizes/factors/resolutions)" if T else ""))
     B.rule = ("case = the full history (inputs, operation arguments) of the validated collection + which collection of the output file; one evaluation per "
               "(schema clause, collection); non-trivial when the collection has >= 1 stored pixel (attribute/index-of-bins clauses: always); distinct by (contract, case)")
 
@@ -789,6 +943,9 @@ def main():
     section_cli(W, T)
     if T:
         section_million(W)
+        section_random_histories(W, 250)
+        B.exhaustive = False  # the seeded random histories are a sample; everything before them is enumerated exhaustively
+    W.R.dump()
     return B.finish()
 
 
